@@ -75,7 +75,7 @@ Qed.
 Lemma update_service_keys j v fq b : Keys v b -> Keys v (snd (fst (update_service j v fq b))).
 Proof.
   intros [K1 K2]. unfold update_service. destruct (split_fq fq) as [sname stype] eqn:SF.
-  destruct (_ || _) eqn:G; [exact (conj K1 K2)|]. destruct (lookup_view stype T_PTR v); [exact (conj K1 K2)|].
+  destruct (browser_not_of_interest _ _) eqn:G; [exact (conj K1 K2)|]. destruct (lookup_view stype T_PTR v); [exact (conj K1 K2)|].
   destruct (lookup_view fq T_SRV v) as [|srv srvs] eqn:S; [exact (conj K1 K2)|]. cbn [fst snd b_services].
   assert (Hfq : exists l0, fq = Some l0).
   { destruct fq as [l0|]; [eauto|]. cbn in SF. injection SF as <- <-. cbn in G. discriminate. }
